@@ -27,6 +27,13 @@ from desper.model.tree import Handle, ResourceMap, StaticResourceMap
 SENTINEL = object()
 
 
+class HarnessError(Exception):
+    """a failure of the harness itself (malformed scenario, broken environment assumption): exit 2"""
+
+OPS = {'set', 'layer', 'clear', 'hclear', 'call', 'cached', 'stat', 'getitem', 'get', 'chain', 'bind', 'snap',
+       'sgetitem', 'sgetattr', 'sget', 'ssetattr', 'sdelattr', 'sdump', 'dump', 'links', 'populate', 'splitext'}
+
+
 class Evil:
     """A resource whose __eq__/__bool__/__hash__ raise: must never be inspected."""
     __slots__ = ()
@@ -46,11 +53,53 @@ class Evil:
     __hash__ = None
 
 
+class AnyEq:
+    """A resource that compares equal to everything (a wildcard matcher such as unittest.mock.ANY)."""
+
+    def __eq__(self, o):
+        return True
+
+    def __ne__(self, o):
+        return False
+
+    __hash__ = None
+
+
+class Twin:
+    """Resources that are all equal to each other but never identical."""
+
+    def __eq__(self, o):
+        return isinstance(o, Twin)
+
+    def __ne__(self, o):
+        return not isinstance(o, Twin)
+
+    def __hash__(self):
+        return 7
+
+
+class Tag:
+    """Duck-typed equality: compares the `name` of whatever it is given (missing name = None)."""
+
+    def __init__(self, name=None):
+        self.name = name
+
+    def __eq__(self, o):
+        return self.name == getattr(o, 'name', None)
+
+    def __ne__(self, o):
+        return not self == o
+
+    __hash__ = None
+
+
 KINDS = {
     'none': lambda: None, 'zero': lambda: 0, 'empty': lambda: '', 'false': lambda: False,
     'tuple': lambda: (), 'list': lambda: [], 'dict': lambda: {}, 'obj': lambda: object(),
     'evil': lambda: Evil(), 'zerof': lambda: 0.0, 'bytes': lambda: b'',
+    'anyeq': lambda: AnyEq(), 'twin': lambda: Twin(), 'tag': lambda: Tag(),
 }
+ODD_EQ_KINDS = ['evil', 'anyeq', 'twin', 'tag']
 SINGLETON_KINDS = ['none', 'zero', 'empty', 'false', 'tuple', 'zerof', 'bytes']
 
 
@@ -176,6 +225,9 @@ class Run:
                 v = s.get(k)
             except AttributeError:
                 continue
+            except Exception as e:       # noqa
+                self.obs.append(f'snode {show_path(path + [k])} raised {type(e).__name__}')
+                continue
             if isinstance(v, StaticResourceMap):
                 self.obs.append(f'snode {show_path(path + [k])} smap')
                 self.sdump(depth - 1, path + [k], v)
@@ -204,7 +256,7 @@ class Run:
         kind = t[0]
         if kind == 'bind':
             if t[1] in self.menv:
-                raise ValueError('rebinding ' + t[1])
+                raise HarnessError('rebinding ' + t[1])
             if t[2] not in self.menv:
                 self.obs.append('unbound')
                 return
@@ -244,9 +296,9 @@ class Run:
             elif kind == 'hclear':
                 self.guard(h.clear)
             elif kind == 'cached':
-                self.obs.append(f'cached h{k} {int(h.cached is True)}')
+                self.obs.append(f'cached h{k} {self.read_cached(h)}')
             else:
-                self.obs.append(f'stat h{k} loads={len(h.loaded)} cached={int(h.cached is True)}')
+                self.obs.append(f'stat h{k} loads={len(h.loaded)} cached={self.read_cached(h)}')
         elif kind == 'links':
             for k, h in self.hs.items():
                 self.obs.append(f'link h{k} parent={self.name_m(h.parent)} key={show_key(h.key)}')
@@ -315,8 +367,8 @@ class Run:
                         if n < len(ks) - 1 and not isinstance(cur, StaticResourceMap):
                             # a Handle has no get(): the chain ends here
                             raise AttributeError(k)
-                except AttributeError:
-                    self.obs.append('sgot raised AttributeError')
+                except Exception as e:       # noqa
+                    self.obs.append(f'sgot raised {type(e).__name__}')
                     return
                 if isinstance(cur, StaticResourceMap):
                     self.obs.append('sgot smap')
@@ -331,7 +383,7 @@ class Run:
                         cur = cur.get(k)
                         if not isinstance(cur, StaticResourceMap):
                             raise AttributeError(k)
-                except AttributeError:
+                except Exception:        # noqa
                     self.obs.append('sres nav-failed')
                     return
                 if kind == 'ssetattr':
@@ -340,6 +392,27 @@ class Run:
                     self.guard(lambda: delattr(cur, ks[-1]), 'sres')
         else:
             raise ValueError(f'bad op {t}')
+
+    def safe_op(self, t):
+        """an exception that escapes from desper during an operation is an observation, never a harness
+        failure (harness errors proper - a malformed scenario - are raised before desper is entered)"""
+        from harness.core import Timeout
+        if t[0] not in OPS:
+            raise HarnessError(f'bad op {t}')
+        try:
+            self.op(t)
+        except (Timeout, HarnessError):
+            raise
+        except Exception as e:       # noqa
+            self.obs.append(f'op-raised {t[0]} {type(e).__name__}')
+
+    def read_cached(self, h):
+        """the public `cached` property; an exception of the implementation is an observation"""
+        try:
+            c = h.cached
+        except Exception as e:       # noqa
+            return f'raised:{type(e).__name__}'
+        return '1' if c is True else '0' if c is False else 'notbool'
 
     def guard(self, f, tag='res'):
         try:
@@ -366,7 +439,7 @@ class Run:
                 assert k not in self.hs
                 self.hs[k] = make_handle(t[2])
             elif t[0] == 'op':
-                self.op(t[1:])
+                self.safe_op(t[1:])
             else:
                 raise ValueError(f'bad scenario line {ln!r}')
         return self.obs, []
